@@ -43,12 +43,14 @@ Definition bitfield_update_core (w : bits) (s e : option Z) (conv : nat -> optio
 Definition bitfield_update (w : bits) (s e : option Z) (nv : bits) (tr : bool) : option bits :=
   bitfield_update_core w s e (fun bw => Some (as_wires_bw nv bw tr)).
 
-(* newvalue is a non-negative Python int: as_wires -> Const(val, bitwidth=bw),
-   which raises when val needs more than bw bits (truncating is not consulted) *)
-Definition conv_int (v : Z) (bw : nat) : option bits :=
-  if (0 <=? v) && (v <? 2 ^ Z.of_nat bw) then Some (of_Z bw v) else None.
-Definition bitfield_update_int (w : bits) (s e : option Z) (v : Z) : option bits :=
-  bitfield_update_core w s e (conv_int v).
+(* newvalue is a non-negative Python int:
+     if truncating and isinstance(newvalue, int): newvalue &= (1 << len(idxs_middle)) - 1
+   then as_wires -> Const(val, bitwidth=bw), which raises when val needs more than bw bits *)
+Definition conv_int (v : Z) (tr : bool) (bw : nat) : option bits :=
+  let v' := if tr then Z.land v (2 ^ Z.of_nat bw - 1) else v in
+  if (0 <=? v') && (v' <? 2 ^ Z.of_nat bw) then Some (of_Z bw v') else None.
+Definition bitfield_update_int (w : bits) (s e : option Z) (v : Z) (tr : bool) : option bits :=
+  bitfield_update_core w s e (conv_int v tr).
 
 (* setlist[s:e] = [True] * len(setlist[s:e]) *)
 Definition set_slice (l : list bool) (s e : option Z) : list bool :=
